@@ -150,7 +150,7 @@ SPECS = {
                 rule="racing rounds of 1-3 members building pending and detached commits in the same epoch; every choice of winner is "
                      "resolved on clones (winner applies directly, by echo or detached; losers clear or just receive; stale commits and stale "
                      "detached secrets are offered afterwards) and compared with a per-member reference model (pending none/some, epoch); one "
-                     "evaluation = one model prediction compared; distinct = distinct (operation, role, pending/detached, mode) cells"),
+                     "evaluation = one model prediction compared; distinct = distinct (operation, role, pending/detached, mode, racers, group size, cached proposals, suite) cells"),
     "C13": dict(shards=(8, 32), level="exploration", post="c13_post",
                 floors={"quick": {"offline_pure_values": 40000, "offline_insitu_epochs": 150, "offline_insitu_values": 3000,
                                   "offline_insitu_epochs_with_psk": 20, "pure:openssl:suite4": 50, "pure:awslc:suite7": 50,
@@ -189,7 +189,7 @@ SPECS = {
                      "apply pending commit, process commit, join, write_to_storage, load_group, key package generation) the storage calls of a "
                      "fault-free twin run are counted and EVERY call position is failed once (thorough: also pairs first-fault/retry-fault); "
                      "one evaluation = one fault point (operation must Err, member and the three stores unchanged, retry Ok, final member and "
-                     "stored history equal to the twin's); distinct = distinct (operation, storage call, position, second position); the "
+                     "stored history equal to the twin's); distinct = distinct (operation, storage call, position, second position, backend, retention); the "
                      "enumeration inside an operation is complete, histories are sampled"),
     "C16": dict(shards=(8, 32), level="exploration",
                 floors={"quick": {"observer_agreement_checked": 800, "window_checked": 6000, "observer_restored": 60,
@@ -212,7 +212,7 @@ SPECS = {
                      "extensions) or a branch with a member set chosen by the harness (equal, strict subset, superset, replaced identity, "
                      "permuted order); the verdict is computed from the identity sets; old-group freeze checked on every member (own build and "
                      "a commit forged by an insider ignoring the freeze); mismatched joins (plain Client::join_group, Welcome of epoch 2, "
-                     "resumption secret of another epoch); distinct = distinct (flow, variant, key change) cells"),
+                     "resumption secret of another epoch); distinct = distinct (flow, variant, key change, successor size, suite) cells"),
     "C18": dict(shards=(8, 32), level="exploration",
                 floors={"quick": {"receiver_expected_to_accept": 1600, "receiver_expected_to_reject": 700, "holder_accepted_and_agrees": 1600,
                                   "rejector_follows_alternative_commit": 700, "joiner_expected_to_join": 30, "joiner_expected_to_fail": 100,
